@@ -235,7 +235,7 @@ def sqlwalk_cases(tier, seed):
     for k in range(n):
         s1 = [rng.choice(pool) for _ in range(rng.randint(0, 7))]
         s2 = [rng.choice(pool) for _ in range(rng.randint(0, 7))]
-        keys = [rng.choice(["Up", "Up", "Down", "C-p", "C-n"]) for _ in range(rng.randint(3, 30))]
+        keys = [rng.choice(["Up", "Up", "Down", "C-p", "C-n", "Up", "Down", "M-<", "M->"]) for _ in range(rng.randint(3, 30))]
         if rng.random() < 0.4:
             keys = ["Up"] * rng.randint(1, 14) + ["Down"] * rng.randint(1, 16)
         keys.append("Enter")
@@ -294,6 +294,14 @@ def sqlwalk_corr(res, exe, tier, seed, tmp):
                 if idx < len(ref):
                     idx += 1
                     shown = ref[idx] if idx < len(ref) else ""
+            elif k == "M-<":            # the oldest line held (where enough Ups end)
+                if ref and idx > 0:
+                    idx = 0
+                    shown = ref[0]
+            elif k == "M->":            # back to the line being typed (where enough Downs end)
+                if idx < len(ref):
+                    idx = len(ref)
+                    shown = ""
         if ok and rl and rl[0] != "R line:" + enc([ord(ch) for ch in shown]):
             res.oracle_failures.append({"stream": "sqlwalk", "case": c.spec(), "keys": c.keys,
                                         "why": "walk: the read returned %s, the line reached is %r" % (rl[0], shown)})
